@@ -427,3 +427,25 @@ func vpH_C08_T_same_cause_twice() {
 	s.audit("end")
 	_ = s.e.Stop()
 }
+
+// vpH_C08_T_double_start: the application calls Start a second time on an election that is running and leading
+// (it gets ErrAlreadyStarted): the running term is not affected — the promotion context stays live, the record
+// keeps being refreshed, no callback fires.
+func vpH_C08_T_double_start() {
+	H := time.Second
+	vpSetOpt("rand-fixed", 1)
+	s := vpTermInstance(H, vpChoose("via-follower", 2) == 1, true, nil)
+	s.audit("term1")
+	seq0 := s.st.lastSeq
+	err := s.e.Start(vpRootCtx())
+	vpAssert("harness.already-started", err == ErrAlreadyStarted)
+	time.Sleep(2*H + H/2)
+	vpQuiesce()
+	vpCover("C08.double-start")
+	vpAssert("C19.live-while-term", s.e.IsLeader() && len(s.cb.ctxs) == 1 && s.cb.ctxs[0].Err() == nil)
+	vpAssert("C02.claim-backed", vpClaimBacked(s.e, s.st, "a") && s.st.lastSeq >= seq0+2)
+	s.audit("after-double-start")
+	_ = s.e.Stop()
+	vpQuiesce()
+	s.audit("end")
+}
